@@ -113,17 +113,24 @@ def sortKeys (l : List (String × Nat)) : List (String × Nat) := l.mergeSort fu
 def blockOffset (l : List (String × Nat)) (key : String) : Nat :=
   ((l.takeWhile fun kv => kv.1 != key).map Prod.snd).foldl (· + ·) 0
 
+/-- block copy operator: for every block `(ro, co, n)` rows `ro … ro+n-1` copy columns `co … co+n-1` -/
+def blockOps [OfNat K 1] (rows cols : Nat) (bs : List (Nat × Nat × Nat)) : Coo K :=
+  ⟨rows, cols, bs.flatMap fun b => (List.range b.2.2).map fun i => (b.1 + i, b.2.1 + i, (1 : K))⟩
+
+/-- cumulative row offsets of consecutive blocks of sizes `ns` -/
+def offsets : Nat → List Nat → List Nat
+  | _, [] => []
+  | o, n :: ns => o :: offsets (o + n) ns
+
 /-- target block with key `k` is domain block with key `ren k` (PartialExtractor, _SlowFieldAdapter,
-    PrependKey, FieldAdapter, Multifield2Vector) -/
+    PrependKey, FieldAdapter, Multifield2Vector): both layouts are the key-sorted concatenation of their blocks -/
 def blockSelect [OfNat K 1] (dom : List (String × Nat)) (tgt : List (String × String)) : Coo K :=
   let d := sortKeys dom
   let t := (tgt.mergeSort fun a b => !(b.1 < a.1)).map fun kk =>
-    (kk.1, kk.2, ((d.find? fun kv => kv.1 == kk.2).map Prod.snd).getD 0)
+    (blockOffset d kk.2, ((d.find? fun kv => kv.1 == kk.2).map Prod.snd).getD 0)
+  let ns := t.map Prod.snd
   let cols := (d.map Prod.snd).foldl (· + ·) 0
-  let ents := (t.foldl (fun (acc : Nat × List (Nat × Nat × K)) kk =>
-      let off := blockOffset d kk.2.1
-      (acc.1 + kk.2.2, acc.2 ++ (List.range kk.2.2).map fun i => (acc.1 + i, off + i, (1 : K)))) (0, [])).2
-  ⟨(t.map fun kk => kk.2.2).foldl (· + ·) 0, cols, ents⟩
+  blockOps (ns.foldl (· + ·) 0) cols ((offsets 0 ns).zip t)
 
 /-- OuterProduct(domain, field): `y[i, j] = f[i] · x[j]` -/
 def outerProduct [OfNat K 0] (n : Nat) (f : List K) : Coo K :=
